@@ -44,5 +44,15 @@ func ReadMsgFromUDP(c io.Reader, bufSize int) (*dnsmsg.Msg, int, error) {
 		return nil, n, err
 	}
 	m, err := dnsmsg.UnpackMsg(b[:n])
+	if err != nil && n >= 12 && b[2]&(1<<1) != 0 {
+		// A truncated (TC) reply. Some servers cut the message at the size limit,
+		// in the middle of a record, without adjusting the section counts. All
+		// that matters is its header: the query has to be sent again via tcp.
+		m = dnsmsg.NewMsg()
+		m.Header.ID = binary.BigEndian.Uint16(b)
+		m.Header.Response = b[2]&(1<<7) != 0
+		m.Header.Truncated = true
+		return m, n, nil
+	}
 	return m, n, err
 }
